@@ -6,6 +6,8 @@ import NibabelModel.Lemmas.C20_Lax
 import NibabelModel.Lemmas.C20_Count
 import NibabelModel.Lemmas.C20_Sites
 import NibabelModel.Lemmas.C20_GenFuncs
+import NibabelModel.Lemmas.C20_GenMethods
+import NibabelModel.Lemmas.C20_Chain
 /-! Props/C20 — property theorems for C20 (PAR/REC volumes are assembled by slice labels, not by
     record order).  Helper lemmas: Lemmas/C20_Sort, C20_Vol, C20_Strict, C20_Load, C20_Sites (call-site
     refinement), C20_GenFuncs (translated `vol_numbers`, tables read off the source).
@@ -500,5 +502,106 @@ theorem sort_stage_keys_from_source :
     Nb.Gen.C20T.aslKeysSrc = "(idefs['label type'],) if 'label type' in idefs.dtype.names else ()" ∧
     Nb.Gen.C20T.diffusionKeysAlts.length = 3 :=
   Src.sort_stage_keys_from_source
+
+/-! ### 9. options survive every way a header is handed on (wave 3) -/
+
+/-- **options_survive_header_chain.**  A header built by the constructor and then handed on through ANY
+    sequence of `copy()` / `PARRECHeader.from_header` / `PARRECImage(…, header=h).header` is an EQUAL header
+    object: same image definitions, same shape, same `permit_truncated`, same `strict_sort`; hence the same
+    index list, scaling arrays (for every `scaling`) and volume labels, and a new proxy built on it
+    (`PARRECArrayProxy(file, h, scaling=m)`) is the proxy of the original header. -/
+theorem options_survive_header_chain (c : Cfg) (recs : List Rec) (permit strict : Bool) (h : Hdr)
+    (h0 : Hdr.init c recs permit strict = .ok h) (ops : List HOp) :
+    h.chain ops = .ok h ∧ h.permit = permit ∧ h.strict = strict ∧
+    ∀ h', h.chain ops = .ok h' →
+      h'.permit = permit ∧ h'.strict = strict ∧ h'.sortedIndices false = h.sortedIndices false ∧
+      (∀ m, h'.dataScaling m false = h.dataScaling m false) ∧ h'.volumeLabels false = h.volumeLabels false := by
+  have hc := chain_eq_self (init_copy h0) ops
+  have hf : h.permit = permit ∧ h.strict = strict := by
+    unfold Hdr.init at h0
+    cases ht : truncationChecks c permit recs with
+    | error e => rw [ht] at h0; cases h0
+    | ok u =>
+      cases hv : nVols c recs with
+      | error e => rw [ht, hv] at h0; cases h0
+      | ok nv =>
+        rw [ht, hv] at h0
+        injection h0 with h0
+        subst h0
+        exact ⟨rfl, rfl⟩
+  refine ⟨hc, hf.1, hf.2, fun h' hh => ?_⟩
+  rw [hc] at hh
+  injection hh with hh
+  subst hh
+  exact ⟨hf.1, hf.2, rfl, fun _ => rfl, rfl⟩
+
+example : ∃ h, Hdr.init exCfg exFullShuffled false true = .ok h ∧
+    h.chain [.copy, .viaImage, .fromHeader] = .ok h ∧ h.strict = true := ⟨_, rfl, rfl, rfl⟩
+
+/-- **loadChain_eq_loadSites.**  Loading, handing the header on through any `ops`, and observing everything
+    (index list, slabs, header and proxy scaling arrays, labels, sliced reads) through the resulting header and
+    a NEW proxy built on it gives exactly the observables of the load, for every input, option and `ops`. -/
+theorem loadChain_eq_loadSites' (c : Cfg) (permit strict : Bool) (m : Scaling) (recs : List Rec) (ops : List HOp) :
+    loadChain c permit strict m recs ops = loadSites c permit strict m false recs :=
+  loadChain_eq_loadSites c permit strict m recs ops
+
+example : ∃ so, loadChain exCfg false true .dv exFullShuffled [.copy, .copy, .viaImage] = .ok so ∧
+    so.out.idx = [1, 3, 2, 0] ∧ so.pslopes = [2, 4, 6, 3] := ⟨_, rfl, by decide, by decide⟩
+
+/-! ### 10. tie to the source: METHODS translated from parrec.py on every run (py2lean_c20) -/
+
+/-- **strict_sort_keys_translated_eq_model.**  The statements of `_strict_sort_order` up to `keys = …`
+    (translated from the working tree on every run: the `asl_keys` conditional on the field names, the
+    if-nesting choosing among the three `diffusion_keys` alternatives incl. the `get_def` fallback to
+    'diffusion_b_factor' — `get_def` itself translated —, the tuple concatenation), run on the encoded
+    header of ANY records, return the columns `keyFuns`, and read from the LAST to the first at a record
+    these are the model's `strictKey`. -/
+theorem strict_sort_keys_translated_eq_model (c : Cfg) (recs : List Rec) (st : Bool) :
+    PyHdr.H.strictKeys ⟨c, recs, st, (2, 3)⟩ =
+      .ok (Nb.Py.V.ofList ((GenM.keyFuns c).map (NV.colOf · recs))) ∧
+    ∀ r, (GenM.keyFuns c).reverse.map (· r) = strictKey c r :=
+  ⟨GenM.strict_sort_keys_eq c recs st, GenM.keyFuns_strictKey c⟩
+
+example : (GenM.keyFuns exCfg).length = 6 ∧ (GenM.keyFuns ⟨.v41, true, 2, 1, 1, 2, 2⟩).length = 7 := by decide
+
+/-- **sorted_indices_translated_eq_model.**  `get_sorted_slice_indices` and `_calc_data_shape`, translated
+    from the working tree on every run, compute `Hdr.sortedIndices` of the model: the order of the sort the
+    header's `strict_sort` selects, cut to `prod(shape[2:])` = `n_slices * max(n_vols, 1)` entries — for every
+    header object and whatever the two sort orders are. -/
+theorem sorted_indices_translated_eq_model (h : Hdr) (x y : Int) (lo so : List (Nat × Rec))
+    (hl : laxOrder h.cfg h.recs = .ok lo) (hs : strictOrder h.cfg h.recs = .ok so) :
+    Nb.Gen.C20M.get_sorted_slice_indices (.bool h.strict) (.ok (NV.ofNats (lo.map (·.1))))
+        (.ok (NV.ofNats (so.map (·.1))))
+        (Nb.Gen.C20M.calc_data_shape (fun _ => .ok (.tup2 (.int x) (.int y))) (.ok (.int h.ns)) (.ok (.int h.nv))) =
+      .ok (NV.ofNats (((if h.strict then so else lo).map (·.1)).take h.nUsed)) ∧
+    h.sortedIndices false = .ok (((if h.strict then so else lo).map (·.1)).take h.nUsed) :=
+  GenM.sorted_indices_eq_model h x y lo so hl hs
+
+example : ∃ h lo so, Hdr.init exCfg exFullShuffled false true = .ok h ∧
+    laxOrder h.cfg h.recs = .ok lo ∧ strictOrder h.cfg h.recs = .ok so := ⟨_, _, _, rfl, rfl, rfl⟩
+
+/-- **calc_data_shape_translated_eq_model.**  The translated `_calc_data_shape` appends `n_vols` exactly
+    when it exceeds 1 (`shapeTail`). -/
+theorem calc_data_shape_translated_eq_model (x y : Int) (ns nv : Nat) :
+    Nb.Gen.C20M.calc_data_shape (fun _ => .ok (.tup2 (.int x) (.int y))) (.ok (.int ns)) (.ok (.int nv)) =
+      .ok (NV.ofInts ([x, y] ++ (shapeTail ns nv).map fun (k : Nat) => (k : Int))) := by
+  rw [GenM.calc_data_shape_eq]
+  unfold shapeTail
+  by_cases h : nv > 1
+  · have h' : (nv : Int) > 1 := by omega
+    simp [h, h']
+  · have h' : ¬ (nv : Int) > 1 := by omega
+    simp [h, h']
+
+example : shapeTail 3 1 = [3] ∧ shapeTail 3 2 = [3, 2] := by decide
+
+/-- **n_slices_translated_eq_model.**  The translated `_get_n_slices` (`len(set(image_defs['slice number']))`)
+    on the encoded header is the model's `nSlices`. -/
+theorem n_slices_translated_eq_model (c : Cfg) (recs : List Rec) (st : Bool) :
+    PyHdr.H.nSlices ⟨c, recs, st, (2, 3)⟩ = .ok (.int (nSlices recs : Nat)) :=
+  GenM.get_n_slices_eq c recs st
+
+example : PyHdr.H.nSlices ⟨exCfg, exFullShuffled, true, (2, 3)⟩ = .ok (.int 2) := by
+  rw [n_slices_translated_eq_model]; decide
 
 end Nb.C20
